@@ -700,8 +700,12 @@ def accum_as_comp(t: Term) -> Term | None:
     kind, res, payload, gens = t[1], t[2], t[3], t[4]
     if kind == "concat" and res == ("listlit", ()) and payload[0] == "listlit" and len(payload[1]) == 1 and payload[1][0][0] != "star":
         return ("comp", "list", payload[1][0], tuple(gens))
-    if kind == "effect" and res == ("dictlit", ()) and payload[0] == "setitem" and len(payload) == 3:
-        return ("comp", "dict", ("kv", payload[1], payload[2]), tuple(gens))
+    if kind == "effect" and payload[0] == "setitem" and len(payload) == 3:
+        c = ("comp", "dict", ("kv", payload[1], payload[2]), tuple(gens))
+        if res == ("dictlit", ()):
+            return c
+        # d[k] = v once per iteration on top of d0  =  d0 | {k: v for ...}  (later keys win in both)
+        return ("op", "|", res, c)
     return None
 
 
